@@ -1,4 +1,5 @@
 //@begin type src/node.rs - struct NodeHandle
+#[derive(Hash)]
 pub struct NodeHandle {
     pub id: NodeId,
     pub addr: SocketAddr,
@@ -7,6 +8,7 @@ pub struct NodeHandle {
 // TRUSTED: derived Copy/Clone/PartialEq on NodeHandle are field-wise (SocketAddr is external, so `Structural` cannot be derived)
 impl Clone for NodeHandle { #[verifier::external_body] fn clone(&self) -> (r: Self) ensures r == *self { unimplemented!() } }
 impl Copy for NodeHandle {}
+impl Eq for NodeHandle {}
 impl PartialEqSpecImpl for NodeHandle {
     open spec fn obeys_eq_spec() -> bool { true }
     open spec fn eq_spec(&self, other: &NodeHandle) -> bool { self.id == other.id && self.addr == other.addr }
